@@ -58,6 +58,7 @@ func VerifC19Negotiation() {
 		wanted[2] = true
 	}
 	conn := Client(cfg)
+	conn.initialise()
 	conn.out = make(chan string, 32)
 	// --- LS
 	var advList, req []string
@@ -150,6 +151,7 @@ func VerifC19History() {
 	cfg.EnableCapabilityNegotiation = true
 	cfg.Capabilites = []string{c1, c2}
 	conn := Client(cfg)
+	conn.initialise()
 	conn.out = make(chan string, 32)
 	got := vFeed(conn, ":srv CAP * LS :"+c1+" "+c2)
 	vAssert(len(got) == 1, "requests-exactly-wanted-and-advertised")
